@@ -99,3 +99,10 @@ Definition check (c : case) : bool :=
           end
       end
   end.
+
+(* ------------------------------------------------------------------ block map (isaac/block/map.go)
+   BlockMap.signedBytes = manifest hash ++ concat (sorted checksums of the items): the item *types* are not
+   among the signed bytes.  items : (item type, checksum). *)
+Definition bm_checksums (items : list (string * list N)) : list (list N) := map snd items.
+Definition retype (f : string -> string) (items : list (string * list N)) : list (string * list N) :=
+  map (fun it => (f (fst it), snd it)) items.
